@@ -391,6 +391,8 @@ def positive_control(chk):
 
 
 def run(ctx, chk, tier):
+    from . import c01 as _c01
+    _c01.flag_identity(ctx, chk)   # direction flags: identity comparisons need BinaryLabel members on every construction path
     chk.rule_text = ("one purity obligation per public deterministic callable (symbolic arguments, all paths): no in-place write reaches caller/receiver storage, no attribute re-binding, "
                      "no RNG; shape/elementwise obligations for cm, 6 rates, 12 threshold setters, pointwise_cm; alias forwarding; non-trivial = callable has array parameters")
     chk.explanation = ("Alias/effect analysis on the abstract evaluator: every value's storage root is followed through view operators (asarray, reshape, basic slicing) to a "
